@@ -413,10 +413,21 @@ func Run(p *Program, o Options) (*Result, error) {
 	u := p.universe()
 	unit := time.Duration(o.UnitMs) * time.Millisecond
 	dir := filepath.Join(o.Dir, fmt.Sprintf("sc%d", p.Sc))
-	port := t38.FreePort()
-	srv, err := t38.Start(t38.Options{Port: port, Dir: filepath.Join(dir, "leader"), Hook: r.hook, Spinlock: o.Spinlock})
-	if err != nil {
-		return nil, err
+	// the hook must be installed for the port before the server starts, so the port is chosen here; another process
+	// may take it in between: try again with another one
+	var port int
+	var srv *t38.Srv
+	var err error
+	for try := 0; ; try++ {
+		port = t38.FreePort()
+		srv, err = t38.Start(t38.Options{Port: port, Dir: filepath.Join(dir, "leader"), Hook: r.hook, Spinlock: o.Spinlock})
+		if err == nil {
+			break
+		}
+		t38.SetHook(port, nil)
+		if try >= 8 || !strings.Contains(err.Error(), "address already in use") {
+			return nil, err
+		}
 	}
 	defer stopLater(srv, dir)
 	dial := func(s *t38.Srv) (*t38.Conn, error) {
